@@ -13,7 +13,7 @@ TOL = 2e-5   # api-core derives per-attempt timeouts through datetime (microseco
 PROFILE = grammar.profile(
     p_service_config=1.0, p_sstream=0.25, p_cstream=0.0, p_bidi=0.0, p_lro=0.3, p_yaml=0.1, p_list=0.7, p_two_services=0.5,
     p_same_method_two_services=0.7,
-    transports=["grpc", "grpc", "grpc+rest"], p_custom=0.6, p_get=1.0)
+    transports=["grpc", "grpc", "grpc+rest"], p_custom=0.6, p_get=1.0, p_mixin_in_service_config=0.15)
 
 BUDGET = {
     "quick": {"worlds": 150, "runs": 150, "wall_cap": 300, "world_wall": 90},
@@ -24,7 +24,8 @@ ASSUMPTIONS = ["maxAttempts is not judged (the generator ignores it and the prop
 REQUIRED_PROBES = ["retry_fired", "deadline_exhausted", "nonretryable_surface", "unnamed_method_called",
                    "async_retry_fired", "explicit_retry", "explicit_timeout", "attempt_deadline_fired",
                    "timeout_without_retry", "retry_without_timeout", "rest_call", "rest_retry_fired", "paged_call",
-                   "later_page_fetch_walked", "lro_call", "sstream_call", "sleep_overshoot_run", "caller_cancelled_mid_call", "later_attempt_deadline_shrunk"]
+                   "later_page_fetch_walked", "lro_call", "sstream_call", "sleep_overshoot_run", "caller_cancelled_mid_call", "later_attempt_deadline_shrunk",
+                   "mixin_rpc_named_in_config"]
 
 
 def gen_spec(rng):
@@ -189,7 +190,54 @@ def gen_scenarios(spec, rng, n):
             # the other callers' retries and deadlines must be unaffected and the cancelled caller must stop
             sc["cancels"] = [{"actor": rng.randrange(len(actors)), "at": rng.choice([0.0, 0.01, 0.1, 0.3, 0.8, 2.0, 5.0])}]
         out.append(sc)
+    _add_mixin_ops(spec, out)
     return out
+
+
+OPS_API = "google.longrunning.Operations"
+
+
+def mixin_entries(spec):
+    """Operations-mixin RPCs that the service config names AND the service YAML exposes."""
+    y = spec.get("service_yaml") or {}
+    if all(a["name"] != OPS_API for a in y.get("apis", [])):
+        return []
+    ruled = {r["selector"].rsplit(".", 1)[1] for r in (y.get("http") or {}).get("rules", []) if r["selector"].startswith(OPS_API + ".")}
+    named = [n.get("method") for e in (spec.get("service_config") or {}).get("methodConfig", []) for n in e.get("name", [])
+             if n.get("service") == OPS_API]
+    return sorted(set(named) & ruled & {"GetOperation", "ListOperations", "DeleteOperation", "CancelOperation"})
+
+
+def _add_mixin_ops(spec, scenarios):
+    """Calls of mixin RPCs that the service config names (the property: "for a method named in a methodConfig entry").
+    Drawn from a PRNG derived from each finished scenario, so the rest of the workload is what it was."""
+    names = mixin_entries(spec)
+    if not names:
+        return
+    import random
+    from .. import rng as rng_mod
+    from . import c17
+    svc = c17._first_service(spec)
+    for sc in scenarios:
+        if sc["client"] == "rest" or sc.get("cancels") or sc.get("threads"):
+            continue
+        r2 = random.Random(int(rng_mod.digest(sc)[:16], 16))
+        if r2.random() > 0.5:
+            continue
+        name = r2.choice(names)
+        op = None
+        for _ in range(12):
+            cand = gen_op(spec, r2, {"package": "google.longrunning"}, {"name": "Operations"}, {"name": name}, "mx", sc["client"])
+            if not cand["call"]:
+                op = cand
+                break
+        if op is None:
+            continue
+        req_full, resp_full, key = c17.MIXINS[OPS_API][name]
+        op.update(kind="mixin", api=OPS_API, service=svc, form="msg", req_full=req_full, resp_full=resp_full,
+                  request={key: "projects/p1/operations/op-" + str(r2.randint(1, 99))} if name != "ListOperations" else {key: "projects/p1"},
+                  reply={})
+        sc["actors"][r2.randrange(len(sc["actors"]))]["ops"].append(op)
 
 
 def gen_op(spec, rng, fs, s, m, oid, client):
@@ -274,8 +322,22 @@ def gen_op(spec, rng, fs, s, m, oid, client):
 
 
 def server_factory(run):
-    from . import c06
-    return c06.server_factory(run)      # paged ops -> page-history server, lro -> operation server, others -> scripted
+    from . import c06, c17
+    base = c06.server_factory(run)      # paged ops -> page-history server, lro -> operation server, others -> scripted
+
+    def serve(call):
+        op = run.ops.get(call["op"])
+        if op is not None and op["kind"] == "mixin":
+            script = op["server"]
+            o = script[call["n"] - 1] if call["n"] <= len(script) else {"lat": min(script[-1].get("lat", 0.0), 0.01)}
+            out = {"lat": o.get("lat", 0.0)}
+            if o.get("code"):
+                out["code"] = o["code"]
+            else:
+                out["msg"] = c17._dyn(op["resp_full"], op["reply"])
+            return out
+        return base(call)
+    return serve
 
 
 def execute(world, scenario):
@@ -309,10 +371,27 @@ def _bump(p, k, n=1):
 
 
 def judge_op(spec, scenario, op, evs, probes):
-    fs, s, m = find_method(spec, op["service"], op["method"])
-    full = fs["package"] + "." + s["name"]
+    if op["kind"] == "mixin":
+        # a mixin RPC that the service config names: judged against its entry like any other named method.  When the
+        # history fails that model but is exactly what an UN-named method does (one attempt, no deadline), the rule is
+        # the recorded open finding `mixin_entry_ignored`; any other failure keeps its own rule.
+        _bump(probes, "mixin_rpc_named_in_config")
+        v = _judge_op(spec, scenario, op, evs, probes, None)
+        if v and not _judge_op(spec, scenario, op, evs, {}, (None, None)):
+            return [dict(v[0], rule="mixin_entry_ignored", msg="the service config names " + op["api"] + "/" + op["method"] +
+                         " but the call behaves like an un-named method (one attempt, no deadline): " + v[0]["msg"])]
+        return v
+    return _judge_op(spec, scenario, op, evs, probes, None)
+
+
+def _judge_op(spec, scenario, op, evs, probes, entry):
+    if op["kind"] == "mixin":
+        full, m = op["api"], {"name": op["method"]}
+    else:
+        fs, s, m = find_method(spec, op["service"], op["method"])
+        full = fs["package"] + "." + s["name"]
     path = f"/{full}/{m['name']}"
-    T_entry, pol_entry = lookup(spec, full, m["name"])
+    T_entry, pol_entry = lookup(spec, full, m["name"]) if entry is None else entry
     call = op.get("call") or {}
     pol, retry_T = pol_entry, T_entry
     if call.get("retry") == "none":
